@@ -48,8 +48,9 @@ P07(cf, op, call, xs, ret) ==
          THEN [flags |-> (IF ~ret.ok /\ ret.err.class = "UnknownToken" THEN {} ELSE {"P07-unknown-token-accepted"})
                          \cup (IF xs = <<>> THEN {} ELSE {"P07-traffic-on-refused-call"}),
                open |-> op]
-         ELSE LET want == IF call.op = "commit" THEN "PartialReversal" ELSE "PreAuthReversal" IN
-              [flags |-> (IF xs # <<>> /\ xs[1].seq = want /\ xs[1].val # <<>> /\ xs[1].val.receipt_no = <<op[call.tok]>>
+         ELSE \* which of the two reversal messages carries it is the implementation's choice (the I-spec names it: a different
+              \* message is model drift); the property is about the receipt number acted on
+              [flags |-> (IF xs # <<>> /\ xs[1].seq \in {"PartialReversal", "PreAuthReversal"} /\ xs[1].val # <<>> /\ xs[1].val.receipt_no = <<op[call.tok]>>
                           THEN {} ELSE {"P07-wrong-receipt"})
                          \cup (IF ~ret.ok /\ ret.err.class = "UnknownToken" THEN {"P07-open-token-refused"} ELSE {}),
                open |-> Without(op, call.tok)]
@@ -69,8 +70,11 @@ P08(cf, op, call, xs, ret) ==
         /\ xs[k].val.tlv = Bmp60(call.tok)
    THEN {} ELSE {"P08-reservation"})
   \cup (IF call.op = "commit" /\ call.tok \in DOMAIN op /\ xs # <<>> /\ xs[1].val # <<>>
-        THEN (IF xs[1].val.amount = <<DSatSub(cf.pre, call.amt)>> THEN {} ELSE {"P08-release-amount"})
-             \cup (IF xs[1].val.currency = <<cf.cur>> /\ xs[1].val.tlv = Bmp60(call.tok) /\ xs[1].val.receipt_no = <<op[call.tok]>>
+        THEN \* (a release written as a message without an amount - a full reversal - releases everything: exact only for a final amount of 0)
+             LET v == xs[1].val
+                 F(f) == f \in DOMAIN v IN
+             (IF (F("amount") /\ v.amount = <<DSatSub(cf.pre, call.amt)>>) \/ (~F("amount") /\ DSatSub(cf.pre, call.amt) = cf.pre) THEN {} ELSE {"P08-release-amount"})
+             \cup (IF (F("currency") => v.currency = <<cf.cur>>) /\ (F("tlv") => v.tlv = Bmp60(call.tok)) /\ F("receipt_no") /\ v.receipt_no = <<op[call.tok]>>
                    THEN {} ELSE {"P08-release-wiring"})
              \cup (IF ret.ok /\ (LastStatus(xs[1]) = <<>> \/ ret.val # SummaryOf(LastStatus(xs[1])[1])) THEN {"P08-summary"} ELSE {})
         ELSE {})
@@ -154,7 +158,8 @@ P18(cf, op, call, xs, ret) ==
        ELSE IF IsAbortReply(last) THEN
             (IF AbortCode(last) = 108 /\ ~(~ret.ok /\ ret.err.class = "NoCardPresented") THEN {"P18-timeout-not-no-card"} ELSE {})
             \cup (IF AbortCode(last) # 108 /\ (ret.ok \/ ret.err.class = "NoCardPresented") THEN {"P18-abort-not-error"} ELSE {})
-       ELSE {}
+       \* the terminal is still reporting (intermediate statuses only): "no card presented" is the terminal's verdict, not the client's
+       ELSE (IF ~ret.ok /\ ret.err.class = "NoCardPresented" THEN {"P18-no-card-without-the-terminal-saying-so"} ELSE {})
 
 PFlags(cf, op, call, xs, ret) ==
   P07(cf, op, call, xs, ret).flags \cup P08(cf, op, call, xs, ret) \cup P19(cf, op, call, xs, ret)
